@@ -2,11 +2,11 @@
 """Regenerate MANIFEST.json from driver/props.py (claimed properties) + the not-applicable list."""
 import json, os, sys
 sys.path.insert(0, os.path.dirname(os.path.abspath(__file__)))
-from props import PROPS, NOT_APPLICABLE, MANIFEST_TEXT
+from props import PROPS, NOT_APPLICABLE, MANIFEST_TEXT, CLAIMED
 
 V = os.path.dirname(os.path.dirname(os.path.abspath(__file__)))
 checks = []
-for pid in sorted(PROPS):
+for pid in sorted(CLAIMED):
     t = MANIFEST_TEXT[pid]
     checks.append(dict(
         property_id=pid,
@@ -30,7 +30,7 @@ m = dict(
         add_only=True,
     ),
     engines=[
-        dict(name="kani-incrate", path="/verif/driver/vdriver.py", serves_properties=sorted(PROPS),
+        dict(name="kani-incrate", path="/verif/driver/vdriver.py", serves_properties=sorted(CLAIMED),
              kind_free_text="Kani 0.68 / CBMC 6.11 / CaDiCaL bounded model checking of the crate compiled from /repo, harness modules compiled inside the crate through cfg(prometheus_verif) include hooks; counterexamples are replayed natively (/verif/replay)"),
     ],
     checks=checks,
